@@ -19,6 +19,26 @@ pub struct ParCase {
     pub seq: fn(&mut Wd, bool, u64, &mut Vec<ItemObs>),
     /// Parallel query; every item is observed, written through its mutable views, and yields.
     pub par: fn(&mut Wd, u64, &Mutex<Vec<ItemObs>>),
+    /// The same parallel query consumed by value-carrying consumers (read-only):
+    /// `count()`, `map(..).sum()`, `map(..).collect()`.
+    pub par_count: fn(&mut Wd) -> usize,
+    pub par_sum: fn(&mut Wd, u64) -> u64,
+    pub par_collect: fn(&mut Wd, u64) -> Vec<ItemObs>,
+}
+
+/// A small per-item number for `sum()` (no overflow for any realistic item count).
+pub fn item_weight(o: &ItemObs) -> u64 {
+    let mut h = simcore::rng::Fnv::default();
+    if let Some((i, g)) = o.0 {
+        h.u64(i as u64);
+        h.u64(g);
+    }
+    for x in &o.1 {
+        h.u64(x.0 as u64);
+        h.u64(x.1 as u64);
+        h.u64(x.2);
+    }
+    h.0 & 0xFFFF_FFFF
 }
 
 pub fn observe<V: Touch>(task: u32, salt: u64, write: bool, item: V) -> ItemObs {
@@ -93,6 +113,58 @@ pub fn run_par_case(case: &ParCase, cfg: &E2Config, run_seed: u64, decisions: Op
         let _ = sched::end();
         if r.is_err() {
             return Err(viol("C03", "unexpected-panic", format!("sequential query panicked: {:?}", simcore::take_panic())));
+        }
+        // 1b. value-carrying consumers (count / sum / collect), read-only, under the simulated scheduler.
+        {
+            let expect_sum: u64 = obs_seq.iter().map(item_weight).sum();
+            let mut expect_keys: Vec<_> = obs_seq.iter().map(key).collect();
+            expect_keys.sort();
+            for (pass, seed_off) in [("count", 1u64), ("sum", 2), ("collect", 3)] {
+                sched::begin(sim_config(cfg), mix(&[run_seed, seed_off]), None);
+                let prev = arena::set_tag(arena::TAG_SUT);
+                let r = catch_unwind(AssertUnwindSafe(|| match pass {
+                    "count" => ((case.par_count)(&mut w) as u64, Vec::new()),
+                    "sum" => ((case.par_sum)(&mut w, salt), Vec::new()),
+                    _ => (0, (case.par_collect)(&mut w, salt)),
+                }));
+                arena::set_tag(prev);
+                let oc = sched::end();
+                if let Some(f) = &oc.failure {
+                    return Err(viol("C12", "no-progress", format!("parallel {pass} did not finish: {f}")));
+                }
+                let (n, items) = match r {
+                    Ok(x) => x,
+                    Err(p) => {
+                        let msg = if let Some(a) = p.downcast_ref::<sched::SimAbort>() { a.0.clone() } else { simcore::take_panic().unwrap_or_else(|| "<panic>".into()) };
+                        return Err(viol("C09", "unexpected-panic", format!("par_query(..).{pass}() panicked: {msg}")));
+                    }
+                };
+                match pass {
+                    "count" => {
+                        if n as usize != obs_seq.len() {
+                            return Err(viol("C09", "parallel-results-differ", format!("{}: par_query(..).iter.count() = {n}, the sequential query yields {} results", case.name, obs_seq.len())));
+                        }
+                    }
+                    "sum" => {
+                        if n != expect_sum {
+                            return Err(viol("C09", "parallel-results-differ", format!("{}: par_query(..).iter.map(weight).sum() = {n:#x}, sequential {expect_sum:#x} ({} results)", case.name, obs_seq.len())));
+                        }
+                    }
+                    _ => {
+                        let mut got: Vec<_> = items.iter().map(key).collect();
+                        got.sort();
+                        if got != expect_keys {
+                            return Err(viol("C09", "parallel-results-differ", format!("{}: par_query(..).iter.map(..).collect() yielded {} results, sequential {}", case.name, got.len(), expect_keys.len())));
+                        }
+                    }
+                }
+                if oc.stats.forks > 0 && !obs_seq.is_empty() {
+                    hit(&mut probes, "value_consumer_split", 1);
+                }
+            }
+            if let Some(e) = take_body_error() {
+                return Err(viol("C05", "payload-integrity", e));
+            }
         }
         // 2. parallel with writes, under the simulated scheduler.
         let obs_par = Mutex::new(Vec::new());
